@@ -346,6 +346,40 @@ pub fn in_fresh_thread<R: Send>(f: impl FnOnce() -> R + Send) -> R {
 	})
 }
 
+/// Calls into the library that a check makes *outside* its enumeration (building a base archive,
+/// counting the read calls of a clean run) are put under the watchdog too: a synthetic case is
+/// registered for the calling thread unless a real one is running. A hang there ends the run with a
+/// verdict and a replayable artefact (oracles `prepass_read_slp` / `prepass_read_slpp`), instead of
+/// a check that never returns.
+pub struct SlotGuard(bool);
+
+impl Drop for SlotGuard {
+	fn drop(&mut self) {
+		if self.0 {
+			slot_end();
+		}
+	}
+}
+
+pub fn prepass(oracle: &'static str, input: &[u8], p: &P) -> SlotGuard {
+	if CTX.get().is_none() {
+		return SlotGuard(false);
+	}
+	if MY_SLOT.with(|s| s.borrow().is_none()) {
+		// the main thread: the last slot is its own (workers use 0..threads)
+		set_thread_slot(255);
+		start_watchdog();
+	}
+	let busy = MY_SLOT.with(|s| s.borrow().map_or(true, |i| slots()[i].lock().unwrap().case.is_some()));
+	if busy {
+		return SlotGuard(false);
+	}
+	let mut p = p.clone();
+	p.class = "pre-pass";
+	slot_begin(&CaseRef { oracle, input: Arc::new(input.to_vec()), p, label: Arc::from("a call outside the enumeration (base / reference run)") });
+	SlotGuard(true)
+}
+
 pub fn slot_begin(c: &CaseRef) {
 	MY_SLOT.with(|s| {
 		if let Some(i) = *s.borrow() {
@@ -419,7 +453,44 @@ pub fn start_watchdog() {
 				fatal_case(&c, "hang", &format!("no result after {} s", HANG_SECS));
 			}
 		}
+		// memory: a subject that allocates without bound (a loop that never ends, a length taken from the
+		// input) is stopped long before the machine runs out - the case that has been running longest is the
+		// one reported (cases take micro- to milliseconds; one that runs for seconds while memory explodes
+		// is the one that loops)
+		if let Some(rss) = resident_bytes() {
+			if rss > rss_cap() {
+				let mut oldest: Option<(CaseRef, Duration)> = None;
+				for s in slots().iter() {
+					let g = s.lock().unwrap();
+					if let Some(c) = &g.case {
+						let d = g.since.elapsed();
+						if d > Duration::from_secs(2) && oldest.as_ref().map_or(true, |(_, od)| d > *od) {
+							oldest = Some((c.clone(), d));
+						}
+					}
+				}
+				match oldest {
+					Some((c, d)) => fatal_case(&c, "memory", &format!("the process holds {} MB after this case has been running for {:.0} s (cap {} MB): unbounded allocation", rss >> 20, d.as_secs_f64(), rss_cap() >> 20)),
+					None => {
+						eprintln!("machinery: the process holds {} MB (cap {} MB) and no case has been running for more than 2 s", rss >> 20, rss_cap() >> 20);
+						std::process::exit(2);
+					}
+				}
+			}
+		}
 	});
+}
+
+fn resident_bytes() -> Option<u64> {
+	let t = std::fs::read_to_string("/proc/self/statm").ok()?;
+	let pages: u64 = t.split_whitespace().nth(1)?.parse().ok()?;
+	Some(pages * 4096)
+}
+
+/// resident-set cap of the engine (VERIF_RSS_GB, default 20; the largest thorough run needs about 4)
+fn rss_cap() -> u64 {
+	static CAP: OnceLock<u64> = OnceLock::new();
+	*CAP.get_or_init(|| std::env::var("VERIF_RSS_GB").ok().and_then(|v| v.parse::<u64>().ok()).unwrap_or(20) << 30)
 }
 
 /// a sleep that bypasses the interposed symbols
